@@ -167,9 +167,10 @@ def check (params : List String) (lines : List String) : CaseResult := Id.run do
       match parseObs ln with
       | some o => obsA := obsA.push o
       | none => r := { r with bad := s!"line {n}: {ln}" :: r.bad }
-    | ["leak", _] =>
-      -- after a racing cancel the inner goroutine of a cycle may stay parked (not a C13 matter)
-      if !race then r := { r with bad := s!"line {n}: goroutines left after a sequential case" :: r.bad }
+    | ["leak", k] =>
+      -- after a racing cancel the inner goroutine of a cycle may stay parked on its internal channel
+      -- (not a C13 matter); in a sequential history every goroutine must return on cancellation
+      if !race then r := { r with specs := s!"cancel_not_observed: {k} timer goroutines still alive after the context was cancelled" :: r.specs }
     | _ => r := { r with bad := s!"line {n}: {ln}" :: r.bad }
   let obs := obsA.toList
   -- model / implementation: some resolution of the selects must reproduce every observation
